@@ -1000,17 +1000,38 @@ class Columns(Widget, WidgetContainerMixin, WidgetContainerListContentsMixin):
                 )
             )
 
+        # a column that is sized by its content and not shown (no width, or no room left for it) shows up
+        # again when that content changes: the canvas keeps depending on it
+        shown = [self.contents[i][0] for _canv, i, _focus, _width in data]
+        hidden_pack = [
+            w
+            for i, (w, (size_kind, _amount, _box)) in enumerate(self.contents)
+            if size_kind == WHSettings.PACK and not any(i == j for _canv, j, _focus, _width in data)
+        ]
+
         if not data:
             if size:
-                return SolidCanvas(" ", size[0], (size[1:] + (1,))[0])
+                return self._blank_canvas(size[0], (size[1:] + (1,))[0], hidden_pack)
             raise ColumnsError("No data to render")
 
         canvas = CanvasJoin(data)
         if len(size) == 1 and not canvas.rows():
             # every column is empty, but rows() reports at least one row
-            return SolidCanvas(" ", size[0], 1)
+            return self._blank_canvas(size[0], 1, shown + hidden_pack)
+        if hidden_pack:
+            canvas.set_depends(shown + hidden_pack)
         if size and canvas.cols() < size[0]:
             canvas.pad_trim_left_right(0, size[0] - canvas.cols())
+        return canvas
+
+    @staticmethod
+    def _blank_canvas(cols: int, rows: int, depends: list[Widget]) -> SolidCanvas | CompositeCanvas:
+        """Blank canvas shown instead of columns that are all hidden or empty, depending on those columns."""
+        blank = SolidCanvas(" ", cols, rows)
+        if not depends:
+            return blank
+        canvas = CompositeCanvas(blank)
+        canvas.set_depends(depends)
         return canvas
 
     def get_cursor_coords(self, size: tuple[()] | tuple[int] | tuple[int, int]) -> tuple[int, int] | None:
